@@ -59,7 +59,7 @@ CLAIMED = {
 	"C15": ("runtime monitor: hooks on Vector.__init__ (census of live vectors) and on the alias tracker's register/unregister (shadow index walked after every step), identity-reuse attack, ground-truth judgement of every AliasError",
 		"Held on every execution explored: pool histories biased to shared tuples, storage-swapping table paths, promotions, drops, cycles and gc placement; directed bursts over widths 1-8 followed by floods of fresh same-width vectors; sharing scenarios with 2-3 sharers. Every refusal was justified by a live sharer; no stale registration could be turned into a refusal.",
 		"Behavioural verdict: stale registrations that cannot be realised as a refusal are evidence only; zero-length vectors excluded.", "DESIGN.md §4 C15"),
-	"C16": ("runtime monitor: freshness oracle (fingerprint of an object rebuilt from current contents) at every quiescent point + single-position sensitivity by hash arithmetic",
+	"C16": ("runtime monitor: freshness oracle (fingerprint of an object rebuilt from current contents) at every quiescent point + single-position sensitivity by hash arithmetic + cancelling two-cell writes with per-cell hashes dictated through the run-time instrumented element-hash hook",
 		"Held on every execution explored: write path x cached-before x object kind x dtype matrix for vectors and tables (views, cells, rows, columns, regions, attribute assignment, promotion), swap and read-only probes, and freshness of every pooled object after every history step.",
 		"Hash-equal pairs modulo 2^61-1 exempt from sensitivity; the library's own fingerprint on a rebuilt object is the freshness reference.", "DESIGN.md §4 C16"),
 	"C17": ("runtime monitor: positional-identity oracle (cell (r,i) = 100*i+r) over advertised accessors from dir() and the repr dot row, rename/replace/append histories",
